@@ -7,6 +7,8 @@ package main
 import (
 	"go/ast"
 	"go/token"
+	"os"
+	"path/filepath"
 	"sort"
 	"strconv"
 	"strings"
@@ -158,6 +160,121 @@ func init() {
 			emit("(* functions of package smtp that assign (or take the address of) the field authIsActive: %s *)\nDefinition smtp_authIsActive_writers : list (list N) := [%s].\n", strings.Join(writers, ", "), strings.Join(items, "; "))
 		}
 
+		// 2c. the condition under which Auth opens the redaction window on entry (the if, outside the deferred function,
+		// whose body assigns c.authIsActive = true), as a function of logAuthData and debug
+		{
+			var openIf *ast.IfStmt
+			if fn, ok := sp.funcs["Client.Auth"]; ok && fn.Body != nil {
+				for _, st := range fn.Body.List {
+					if is, ok := st.(*ast.IfStmt); ok && hasAssign(sp, is.Body, "c.authIsActive", "true") {
+						openIf = is
+					}
+				}
+			}
+			done := false
+			if openIf != nil {
+				if e, ok := sp.expr(openIf.Cond, map[string]string{"c.logAuthData": "lad", "c.debug": "dbg"}); ok {
+					emit("(* %s: in Client.Auth: if %s { c.authIsActive = true } *)\nDefinition smtp_auth_entry_opens (lad dbg : bool) : bool := %s.\n", sp.pos(openIf), sp.src(openIf.Cond), e)
+					done = true
+				}
+			}
+			if !done {
+				untranslatable = append(untranslatable, "smtp_auth_entry_opens")
+				emit("(* UNTRANSLATABLE smtp_auth_entry_opens: no top-level if in Client.Auth over c.logAuthData / c.debug that sets c.authIsActive = true *)\nDefinition smtp_auth_entry_opens (lad dbg : bool) : bool := false.\n")
+			}
+		}
+
+		// 2d. nothing outside the scramAuth value carries over from one exchange to the next: package-level variables of
+		// internal/pbkdf2, package-level variables of package smtp assigned by scramAuth methods, and reset() only
+		// assigns fields (it does not write through the old slices)
+		{
+			pk := load(filepath.Join(os.Args[1], "internal", "pbkdf2"))
+			var vars []string
+			for _, f := range pk.files {
+				for _, d := range f.Decls {
+					if gd, ok := d.(*ast.GenDecl); ok && gd.Tok == token.VAR {
+						for _, spc := range gd.Specs {
+							for _, n := range spc.(*ast.ValueSpec).Names {
+								vars = append(vars, n.Name)
+							}
+						}
+					}
+				}
+			}
+			sort.Strings(vars)
+			items := make([]string, len(vars))
+			for i, v := range vars {
+				items[i] = coqBytes(v)
+			}
+			emit("(* package-level variables of internal/pbkdf2: %s *)\nDefinition pbkdf2_package_vars : list (list N) := [%s].\n", strings.Join(vars, ", "), strings.Join(items, "; "))
+			// package-level vars of smtp
+			pkgVars := map[string]bool{}
+			for _, f := range sp.files {
+				for _, d := range f.Decls {
+					if gd, ok := d.(*ast.GenDecl); ok && gd.Tok == token.VAR {
+						for _, spc := range gd.Specs {
+							for _, n := range spc.(*ast.ValueSpec).Names {
+								pkgVars[n.Name] = true
+							}
+						}
+					}
+				}
+			}
+			var written []string
+			for name, f := range sp.funcs {
+				if !strings.HasPrefix(name, "scramAuth.") || f.Body == nil {
+					continue
+				}
+				ast.Inspect(f.Body, func(x ast.Node) bool {
+					if as, ok := x.(*ast.AssignStmt); ok && as.Tok != token.DEFINE {
+						for _, l := range as.Lhs {
+							root := l
+							for {
+								switch t := root.(type) {
+								case *ast.IndexExpr:
+									root = t.X
+									continue
+								case *ast.SelectorExpr:
+									root = t.X
+									continue
+								case *ast.StarExpr:
+									root = t.X
+									continue
+								}
+								break
+							}
+							if id, ok := root.(*ast.Ident); ok && pkgVars[id.Name] {
+								written = append(written, name+":"+id.Name)
+							}
+						}
+					}
+					return true
+				})
+			}
+			sort.Strings(written)
+			items = make([]string, len(written))
+			for i, v := range written {
+				items[i] = coqBytes(v)
+			}
+			emit("(* package-level variables of package smtp assigned inside scramAuth methods: %s *)\nDefinition scram_package_var_writes : list (list N) := [%s].\n", strings.Join(written, ", "), strings.Join(items, "; "))
+			resetOK := false
+			if fn, ok := sp.funcs["scramAuth.reset"]; ok && fn.Body != nil {
+				resetOK = true
+				for _, st := range fn.Body.List {
+					as, ok := st.(*ast.AssignStmt)
+					if !ok || len(as.Lhs) != 1 {
+						resetOK = false
+						continue
+					}
+					se, ok := as.Lhs[0].(*ast.SelectorExpr)
+					if !ok || sp.src(se.X) != "a" {
+						resetOK = false
+					}
+				}
+			}
+			emitBool("scram_reset_only_assigns_fields", resetOK, "scramAuth.reset consists of assignments a.<field> = <value> only (no writes through the old slices)")
+		}
+
 		// 3. the reply codes Auth dispatches on
 		chal, succ, more := int64(0), int64(0), int64(0)
 		deferred := false
@@ -211,6 +328,23 @@ func init() {
 			untranslatable = append(untranslatable, "smtp_auth_deactivation_deferred")
 		}
 		emitBool("smtp_auth_deactivation_deferred", deferred, "Client.Auth: a deferred function sets c.authIsActive = false")
+		// ... unconditionally (a top-level statement of the deferred function), or only under a condition (if !c.logAuthData)
+		uncond := false
+		if fn, ok := sp.funcs["Client.Auth"]; ok && fn.Body != nil {
+			ast.Inspect(fn.Body, func(x ast.Node) bool {
+				if ds, ok := x.(*ast.DeferStmt); ok {
+					if fl, ok := ds.Call.Fun.(*ast.FuncLit); ok {
+						for _, st := range fl.Body.List {
+							if as, ok := st.(*ast.AssignStmt); ok && len(as.Lhs) == 1 && sp.src(as.Lhs[0]) == "c.authIsActive" && sp.src(as.Rhs[0]) == "false" {
+								uncond = true
+							}
+						}
+					}
+				}
+				return true
+			})
+		}
+		emitBool("smtp_auth_defer_unconditional", uncond, "Client.Auth: the deferred function clears c.authIsActive unconditionally (not only if !c.logAuthData)")
 
 		// mail.Client.auth builds the mechanism for THIS dial (current user name, password, TLS state) and does not keep it:
 		// no assignment to c.smtpAuth inside auth()
